@@ -1285,13 +1285,16 @@ def _build_staircase(U, rtol=1e-12, atol=1e-12):
                 sum_of_column = 0
                 for k in range(i):
                     sum_of_column += pow(np.absolute(running_prod[k, 0]), 2)
-                cf = np.sqrt(1 - sum_of_column)
-
                 y, z = running_prod[i, 0], running_prod[j, 0]
-                capY, capZ = y / cf, z / cf
 
-                # Build the SU(2) transformation and embed it into the larger matrix
-                Rij_inv = np.array([[np.conj(capY), np.conj(capZ)], [-capZ, capY]])
+                # If both entries vanish already there is nothing to "0 out"
+                # (and ``cf`` is zero); the transformation is the identity.
+                if not np.allclose([y, z], 0, rtol, atol):
+                    cf = np.sqrt(1 - sum_of_column)
+                    capY, capZ = y / cf, z / cf
+
+                    # Build the SU(2) transformation and embed it into the larger matrix
+                    Rij_inv = np.array([[np.conj(capY), np.conj(capZ)], [-capZ, capY]])
             else:
                 # The last transformation, R12 is special and the rotation has
                 # a different form
